@@ -29,6 +29,10 @@ def generate(rng, tier, focus):
         if rng.random() < 0.3:  # general (non-triangular) non-singular box
             box[0, 1] = rng.uniform(-0.3, 0.3) * d[1]
             box[0, 2] = rng.uniform(-0.3, 0.3) * d[2]
+        elif rng.random() < 0.3:
+            # skew components of opposite sign that cancel exactly (the sum of all entries equals the trace)
+            x = round(rng.uniform(0.1, 0.4) * d[0], 3)
+            box[1, 0], box[2, 0], box[2, 1] = x, -x, 0.0
     scale = float(np.max(np.abs(box)))
     n1, n2 = rng.randint(1, 4), rng.randint(1, 4)
     far = rng.random() < 0.4
@@ -181,6 +185,14 @@ def execute(trace, ctx):
         back = float(r[1].distance_to(r[0], box_vects=(np.asfortranarray(box) if forms.get("box") == "fortran" else box.copy())))
         if abs(back - got) > tol:
             ctx.violate(P, "symmetry", f"d(a,b)={got!r} but d(b,a)={back!r} (box {box.tolist()})")
+        # the same matrix in the OTHER role right afterwards: `box` handed over as an inverse box describes the box inv(box)
+        if ortho and (trace.get("forms") or {}).get("point") != "array":
+            as_inv = float(r[0].distance_to(other, box_vects=box.copy(), inv=True))
+            direct = float(r[0].distance_to(other, box_vects=inv.copy()))
+            if abs(as_inv - direct) > tol:
+                ctx.violate(P, "inverse-flag", f"matrix M used as inverse box: {as_inv!r}; box inv(M) handed over directly: {direct!r}",
+                            key="roles")
+            ctx.probe("one_matrix_in_both_roles")
         # inverse flag
         inv_in = inv.copy()
         if forms.get("box") == "fortran":
